@@ -1,6 +1,1100 @@
-//! C11 — harness module not built yet.
+//! C11 — whitelist membership accounting, capacity and fees are exact.
+//! Drives the real whitelist, whitelist-flex, tiered-whitelist, tiered-whitelist-flex and
+//! whitelist-immutable contracts through histories of instantiate / add / remove /
+//! add-stage / remove-stage / increase-limit calls, records after every call what the
+//! queries and the bank say (as Coq terms for the model comparison) and evaluates the
+//! property sentence directly on those observations.
+use crate::util::*;
+use crate::w_whitelist::*;
 use crate::Args;
-pub fn run(_a: &Args) {
-    eprintln!("C11: harness module not built yet");
-    std::process::exit(2);
+use cosmwasm_std::Order;
+use serde::Deserialize;
+use serde_json::json;
+use std::collections::{BTreeMap, BTreeSet};
+
+const S: u64 = 1_000_000_000;
+const T0: u64 = GENESIS + 1000 * S;
+/// 100 STARS
+const STARS_100: u128 = 100_000_000;
+
+fn rb(r: &Option<bool>) -> String {
+    match r {
+        Some(b) => format!("(Ok {})", coq_bool(*b)),
+        None => "Err".to_string(),
+    }
+}
+fn coq_ledger(l: &Ledger) -> String {
+    format!("(mkL {} {} {} {})", l.held, l.pool, l.burned, l.paid)
+}
+
+// ------------------------------------------------------------ observations
+
+#[derive(Clone, Debug)]
+struct MObs {
+    num: u64,
+    limit: u64,
+    members: Vec<(u64, u32)>,
+    has: Vec<(u64, Option<bool>)>,
+    ledger: Ledger,
+}
+impl MObs {
+    fn coq(&self) -> String {
+        format!(
+            "(mkMobs {} {} {} {} {})",
+            self.num,
+            self.limit,
+            coq_pairs(&self.members),
+            coq_list(&self.has.iter().map(|(a, r)| format!("({}, {})", a, rb(r))).collect::<Vec<_>>()),
+            coq_ledger(&self.ledger)
+        )
+    }
+}
+fn has_member(w: &World, a: u64) -> Option<bool> {
+    w.query(&json!({"has_member": {"member": name(a)}})).ok().and_then(|v| v["has_member"].as_bool())
+}
+fn observe_pf(w: &World, probes: &[u64]) -> MObs {
+    let c = w.query(&json!({"config": {}})).expect("config");
+    MObs {
+        num: c["num_members"].as_u64().unwrap_or(u64::MAX),
+        limit: c["member_limit"].as_u64().unwrap_or(u64::MAX),
+        members: w.members_all(None).expect("members"),
+        has: probes.iter().map(|a| (*a, has_member(w, *a))).collect(),
+        ledger: w.ledger(),
+    }
+}
+
+#[derive(Clone, Debug)]
+struct TObs {
+    num: u64,
+    limit: u64,
+    nstages: u64,
+    stages: Vec<(u64, Vec<(u64, u32)>)>,
+    beyond: Vec<(u64, u32)>,
+    probe: Vec<(u64, u64, Option<bool>)>,
+    has: Vec<(u64, Option<bool>)>,
+    ledger: Ledger,
+}
+impl TObs {
+    fn coq(&self) -> String {
+        format!(
+            "(mkTobs {} {} {} {} {} {} {} {})",
+            self.num,
+            self.limit,
+            self.nstages,
+            coq_list(&self.stages.iter().map(|(c, ms)| format!("({}, {})", c, coq_pairs(ms))).collect::<Vec<_>>()),
+            coq_pairs(&self.beyond),
+            coq_list(&self.probe.iter().map(|(k, a, r)| format!("({}, {}, {})", k, a, rb(r))).collect::<Vec<_>>()),
+            coq_list(&self.has.iter().map(|(a, r)| format!("({}, {})", a, rb(r))).collect::<Vec<_>>()),
+            coq_ledger(&self.ledger)
+        )
+    }
+}
+fn observe_t(w: &World, probes: &[u64]) -> TObs {
+    let c = w.query(&json!({"config": {}})).expect("config");
+    let nstages = match w.query(&json!({"stages": {}})) {
+        Ok(v) => v["stages"].as_array().map(|a| a.len()).unwrap_or(0) as u64,
+        Err(_) => 0,
+    };
+    let mut stages = vec![];
+    for k in 0..nstages {
+        let cnt = w
+            .query(&json!({"stage": {"stage_id": k}}))
+            .ok()
+            .and_then(|v| v["member_count"].as_u64())
+            .unwrap_or(u64::MAX);
+        stages.push((cnt, w.members_all(Some(k as u32)).expect("members")));
+    }
+    let beyond = w.members_all(Some(nstages as u32)).expect("members beyond");
+    let mut probe = vec![];
+    for k in 0..=nstages {
+        for a in probes {
+            let r = w
+                .query(&json!({"stage_member_info": {"stage_id": k, "member": name(*a)}}))
+                .ok()
+                .and_then(|v| v["is_member"].as_bool());
+            probe.push((k, *a, r));
+        }
+    }
+    TObs {
+        num: c["num_members"].as_u64().unwrap_or(u64::MAX),
+        limit: c["member_limit"].as_u64().unwrap_or(u64::MAX),
+        nstages,
+        stages,
+        beyond,
+        probe,
+        has: probes.iter().map(|a| (*a, has_member(w, *a))).collect(),
+        ledger: w.ledger(),
+    }
+}
+
+// ------------------------------------------------------------ Coq terms for the tiered model
+
+fn coq_stage(s: &StageSpec) -> String {
+    format!("(mkStage {} {} {} {})", s.start, s.end, s.pal, s.denom)
+}
+fn coq_timsg(i: &Init) -> String {
+    format!(
+        "(mkTimsg {} {} {} {} {} {})",
+        coq_list(&i.members.iter().map(|m| coq_pairs(m)).collect::<Vec<_>>()),
+        coq_list(&i.stages.iter().map(coq_stage).collect::<Vec<_>>()),
+        i.limit,
+        coq_opt32(i.whale),
+        coq_ns(&i.admins),
+        coq_bool(i.mutable)
+    )
+}
+fn coq_o64(o: &Option<u64>) -> String {
+    coq_opt_n(*o)
+}
+fn coq_top(op: &Op) -> String {
+    match op {
+        Op::TAdd { stage, ms } => format!("(TAdd {} {})", stage, coq_pairs(ms)),
+        Op::TRemove { stage, ms } => format!("(TRemove {} {})", stage, coq_ns(ms)),
+        Op::AddStage { stage, ms } => format!("(TAddStage {} {})", coq_stage(stage), coq_pairs(ms)),
+        Op::RemoveStage(k) => format!("(TRemoveStage {})", k),
+        Op::UpdStage { stage, start, end, pal } => {
+            format!("(TUpdStage {} {} {} {})", stage, coq_o64(start), coq_o64(end), coq_opt32(*pal))
+        }
+        Op::Increase(n) => format!("(TIncrease {})", n),
+        Op::UpdAdmins(l) => format!("(TUpdAdmins {})", coq_ns(l)),
+        Op::Freeze => "TFreeze".to_string(),
+        _ => panic!("plain op in a tiered history"),
+    }
+}
+
+// ------------------------------------------------------------ monitors (property text)
+
+fn tiers_fee(limit: u64) -> u128 {
+    // 100 STARS per started thousand
+    ((limit as u128 + 999) / 1000) * STARS_100
+}
+fn distinct(ms: &[(u64, u32)]) -> usize {
+    ms.iter().map(|m| m.0).collect::<BTreeSet<_>>().len()
+}
+
+struct Mon {
+    kind: Kind,
+    viol: Option<(String, String)>,
+}
+impl Mon {
+    fn flag(&mut self, key: String, what: String) {
+        if self.viol.is_none() {
+            self.viol = Some((key, what));
+        }
+    }
+    /// key for a count mismatch: the two repaired defects keep their registered keys
+    fn count_key(&self, opl: &str) -> String {
+        match (self.kind, opl) {
+            (Kind::Flex, "instantiate") => "C11:flex-instantiate-duplicates".into(),
+            (Kind::Tiered | Kind::TieredFlex, "instantiate" | "add_stage") => "C11:tiered-counts".into(),
+            (k, o) => format!("C11:{}:{}:count-mismatch", k.label(), o),
+        }
+    }
+    fn capacity(&mut self, opl: &str, num: u64, limit: u64, prev_limit: Option<u64>) {
+        let k = self.kind.label();
+        if num > limit {
+            self.flag(format!("C11:{}:{}:count-above-limit", k, opl), format!("num_members {} exceeds member_limit {}", num, limit));
+        }
+        if limit > self.kind.max_members() as u64 {
+            self.flag(format!("C11:{}:{}:limit-above-maximum", k, opl), format!("member_limit {} exceeds the maximum {}", limit, self.kind.max_members()));
+        }
+        if let Some(p) = prev_limit {
+            if limit < p {
+                self.flag(format!("C11:{}:{}:limit-decreased", k, opl), format!("member_limit went {} -> {}", p, limit));
+            }
+        }
+    }
+    /// fees ever paid == 100 STARS per started thousand of the current limit; nothing held
+    fn fees(&mut self, opl: &str, limit: u64, fees_paid: u128, stray: u128, l: &Ledger) {
+        let k = self.kind.label();
+        if fees_paid != tiers_fee(limit) {
+            self.flag(
+                format!("C11:{}:{}:fee-identity", k, opl),
+                format!("fees paid so far {} but member_limit {} calls for {}", fees_paid, limit, tiers_fee(limit)),
+            );
+        }
+        if l.held != stray {
+            self.flag(format!("C11:{}:{}:holds-funds", k, opl), format!("whitelist balance is {} (funds sent with non-fee calls: {})", l.held, stray));
+        }
+        if l.pool + l.burned != fees_paid {
+            self.flag(
+                format!("C11:{}:{}:fee-not-burned-or-forwarded", k, opl),
+                format!("fees paid {} but burned {} + fair-burn pool {}", fees_paid, l.burned, l.pool),
+            );
+        }
+        if l.paid != fees_paid + stray {
+            self.flag(format!("C11:{}:{}:payer-charged-differently", k, opl), format!("callers paid {} for fees {} (+{} stray)", l.paid, fees_paid, stray));
+        }
+    }
+}
+
+struct Outcome {
+    coq: String,
+    evals: u64,
+    viol: Option<(String, String)>,
+    hist: Vec<String>,
+    nontrivial: bool,
+    sample: String,
+}
+
+fn native_amount(fs: &[(String, u128)]) -> u128 {
+    fs.iter().filter(|f| f.0 == NATIVE).map(|f| f.1).sum()
+}
+
+fn probe_ids(h: &History) -> Vec<u64> {
+    let mut s: BTreeSet<u64> = [50u64, 61, 199].into_iter().collect();
+    for l in &h.init.members {
+        s.extend(l.iter().map(|m| m.0));
+    }
+    for st in &h.steps {
+        match &st.op {
+            Some(Op::Add(ms)) | Some(Op::TAdd { ms, .. }) | Some(Op::AddStage { ms, .. }) => s.extend(ms.iter().map(|m| m.0)),
+            Some(Op::Remove(ms)) | Some(Op::TRemove { ms, .. }) => s.extend(ms.iter().cloned()),
+            _ => {}
+        }
+    }
+    s.into_iter().take(9).collect()
+}
+
+fn run_pf(h: &History) -> Outcome {
+    let kind = h.init.kind;
+    let mut w = World::new(kind);
+    let mut mon = Mon { kind, viol: None };
+    let probes = probe_ids(h);
+    let mut hist = vec![];
+    let env0 = coq_env(h.init.now, h.init.sender, &h.init.funds);
+    let imsg = coq_imsg(&h.init);
+    let r = w.instantiate(&h.init);
+    hist.push(format!("{}:instantiate:{}", kind.label(), if r.is_ok() { "ok" } else { "err" }));
+    if let Err(e) = &r {
+        let l = w.ledger();
+        if l != Ledger::default() {
+            mon.flag(format!("C11:{}:instantiate:rejected-but-charged", kind.label()), format!("{:?}", l));
+        }
+        return Outcome {
+            coq: format!("C11Fail {} {} {}", kind.coq(), env0, imsg),
+            evals: 1,
+            viol: mon.viol,
+            hist,
+            nontrivial: !e.contains("parsing"),
+            sample: format!("instantiate rejected: {}", e.chars().take(100).collect::<String>()),
+        };
+    }
+    let mut evals = 1u64;
+    let o0 = observe_pf(&w, &probes);
+    let mut fees_paid = native_amount(&h.init.funds);
+    let mut stray = 0u128;
+    // each fee must be paid exactly
+    if fees_paid != tiers_fee(o0.limit) {
+        mon.flag(format!("C11:{}:instantiate:fee-not-exact", kind.label()), format!("created with limit {} for a payment of {}", o0.limit, fees_paid));
+    }
+    let check_counts = |mon: &mut Mon, opl: &str, o: &MObs| {
+        if o.num as usize != o.members.len() || distinct(&o.members) != o.members.len() {
+            let key = mon.count_key(opl);
+            mon.flag(key, format!("after {}: num_members = {}, stored = {} ({} distinct)", opl, o.num, o.members.len(), distinct(&o.members)));
+        }
+        let stored: BTreeSet<u64> = o.members.iter().map(|m| m.0).collect();
+        for (a, r) in &o.has {
+            if let Some(b) = r {
+                if *b != stored.contains(a) {
+                    let k = mon.kind.label();
+                    mon.flag(format!("C11:{}:{}:has-member-wrong", k, opl), format!("HasMember({}) = {} but stored = {}", name(*a), b, stored.contains(a)));
+                }
+            }
+        }
+    };
+    check_counts(&mut mon, "instantiate", &o0);
+    mon.capacity("instantiate", o0.num, o0.limit, None);
+    mon.fees("instantiate", o0.limit, fees_paid, stray, &o0.ledger);
+    let mut prev = o0.clone();
+    let mut steps_coq = vec![];
+    let mut sample = String::new();
+    let mut nontrivial = false;
+    for s in &h.steps {
+        let Some(op) = &s.op else { continue };
+        evals += 1;
+        let digest_before = w.digest();
+        let r = w.exec(s);
+        let ok = r.is_ok();
+        let o = observe_pf(&w, &probes);
+        let opl = op.kind_label();
+        hist.push(format!("{}:{}:{}", kind.label(), opl, if ok { "ok" } else { "err" }));
+        if ok && matches!(op, Op::Add(_) | Op::Remove(_) | Op::Increase(_)) {
+            nontrivial = true;
+            if sample.is_empty() {
+                sample = format!("{:?} -> num {} limit {} members {:?}", op, o.num, o.limit, o.members);
+            }
+        }
+        if !ok {
+            if w.digest() != digest_before {
+                mon.flag(format!("C11:{}:{}:rejected-call-changed-state", kind.label(), opl), format!("{:?} rejected but storage changed", op));
+            }
+            if o.ledger != prev.ledger {
+                mon.flag(format!("C11:{}:{}:rejected-but-charged", kind.label(), opl), format!("{:?} rejected but balances moved {:?} -> {:?}", op, prev.ledger, o.ledger));
+            }
+        } else {
+            let pay = native_amount(&s.funds);
+            match op {
+                Op::Increase(n) => {
+                    fees_paid += pay;
+                    // each fee must be paid exactly: the difference of started thousands
+                    let want = tiers_fee(*n as u64).saturating_sub(tiers_fee(prev.limit));
+                    if pay != want {
+                        mon.flag(format!("C11:{}:{}:fee-not-exact", kind.label(), opl), format!("limit {} -> {} accepted for a payment of {} (fee {})", prev.limit, n, pay, want));
+                    }
+                }
+                _ => stray += pay,
+            }
+            let before: BTreeSet<u64> = prev.members.iter().map(|m| m.0).collect();
+            let after: BTreeSet<u64> = o.members.iter().map(|m| m.0).collect();
+            match op {
+                Op::Remove(ms) => {
+                    // removing requires existing members
+                    if let Some(a) = ms.iter().find(|a| !before.contains(a)) {
+                        mon.flag(format!("C11:{}:{}:removed-non-member", kind.label(), opl), format!("remove of {} accepted though it was not stored", name(*a)));
+                    }
+                    if let Some(a) = ms.iter().find(|a| after.contains(a)) {
+                        mon.flag(format!("C11:{}:{}:removed-still-stored", kind.label(), opl), format!("{} still stored after its removal", name(*a)));
+                    }
+                }
+                Op::Add(ms) => {
+                    if let Some(a) = ms.iter().find(|a| !after.contains(&a.0)) {
+                        mon.flag(format!("C11:{}:{}:added-not-stored", kind.label(), opl), format!("{} not stored after an accepted add", name(a.0)));
+                    }
+                    if let Some(a) = before.iter().find(|a| !after.contains(a)) {
+                        mon.flag(format!("C11:{}:{}:add-dropped-member", kind.label(), opl), format!("{} disappeared during an add", name(*a)));
+                    }
+                }
+                _ => {
+                    if before != after {
+                        mon.flag(format!("C11:{}:{}:members-changed", kind.label(), opl), format!("{:?} changed the member set", op));
+                    }
+                }
+            }
+        }
+        check_counts(&mut mon, opl, &o);
+        mon.capacity(opl, o.num, o.limit, Some(prev.limit));
+        mon.fees(opl, o.limit, fees_paid, stray, &o.ledger);
+        steps_coq.push(format!("MExec {} {} {} {}", coq_env(s.now, s.sender, &s.funds), coq_op(op), coq_bool(ok), o.coq()));
+        prev = o;
+    }
+    Outcome {
+        coq: format!("C11Hist {} {} {} {} {}", kind.coq(), env0, imsg, o0.coq(), coq_list(&steps_coq)),
+        evals,
+        viol: mon.viol,
+        hist,
+        nontrivial,
+        sample,
+    }
+}
+
+fn run_tiered(h: &History) -> Outcome {
+    let kind = h.init.kind;
+    let mut w = World::new(kind);
+    let mut mon = Mon { kind, viol: None };
+    let probes: Vec<u64> = probe_ids(h).into_iter().take(5).collect();
+    let mut hist = vec![];
+    let env0 = coq_env(h.init.now, h.init.sender, &h.init.funds);
+    let imsg = coq_timsg(&h.init);
+    let r = w.instantiate(&h.init);
+    hist.push(format!("{}:instantiate:{}", kind.label(), if r.is_ok() { "ok" } else { "err" }));
+    if let Err(e) = &r {
+        let l = w.ledger();
+        if l != Ledger::default() {
+            mon.flag(format!("C11:{}:instantiate:rejected-but-charged", kind.label()), format!("{:?}", l));
+        }
+        return Outcome {
+            coq: format!("C11TFail {} {} {}", kind.coq(), env0, imsg),
+            evals: 1,
+            viol: mon.viol,
+            hist,
+            nontrivial: !e.contains("parsing"),
+            sample: format!("instantiate rejected: {}", e.chars().take(100).collect::<String>()),
+        };
+    }
+    let mut evals = 1u64;
+    let o0 = observe_t(&w, &probes);
+    let mut fees_paid = native_amount(&h.init.funds);
+    let mut stray = 0u128;
+    if fees_paid != tiers_fee(o0.limit) {
+        mon.flag(format!("C11:{}:instantiate:fee-not-exact", kind.label()), format!("created with limit {} for a payment of {}", o0.limit, fees_paid));
+    }
+    let check_counts = |mon: &mut Mon, opl: &str, o: &TObs| {
+        let mut total = 0usize;
+        for (k, (cnt, ms)) in o.stages.iter().enumerate() {
+            total += ms.len();
+            if *cnt as usize != ms.len() || distinct(ms) != ms.len() {
+                let key = mon.count_key(opl);
+                mon.flag(key, format!("after {}: stage {} member_count = {}, stored = {}", opl, k, cnt, ms.len()));
+            }
+        }
+        total += o.beyond.len();
+        if o.num as usize != total {
+            let key = mon.count_key(opl);
+            mon.flag(key, format!("after {}: num_members = {}, stored over all stages = {}", opl, o.num, total));
+        }
+        for (k, a, r) in &o.probe {
+            if let Some(b) = r {
+                let stored = if (*k as usize) < o.stages.len() { o.stages[*k as usize].1.iter().any(|m| m.0 == *a) } else { o.beyond.iter().any(|m| m.0 == *a) };
+                if *b != stored {
+                    let kl = mon.kind.label();
+                    mon.flag(format!("C11:{}:{}:is-member-wrong", kl, opl), format!("StageMemberInfo({}, {}).is_member = {} but stored = {}", k, name(*a), b, stored));
+                }
+            }
+        }
+        for (a, r) in &o.has {
+            if *r == Some(true) && !o.stages.iter().any(|(_, ms)| ms.iter().any(|m| m.0 == *a)) {
+                let kl = mon.kind.label();
+                mon.flag(format!("C11:{}:{}:has-member-wrong", kl, opl), format!("HasMember({}) = true but it is stored in no stage", name(*a)));
+            }
+        }
+    };
+    check_counts(&mut mon, "instantiate", &o0);
+    mon.capacity("instantiate", o0.num, o0.limit, None);
+    mon.fees("instantiate", o0.limit, fees_paid, stray, &o0.ledger);
+    let mut prev = o0.clone();
+    let mut steps_coq = vec![];
+    let mut sample = String::new();
+    let mut nontrivial = false;
+    for s in &h.steps {
+        let Some(op) = &s.op else { continue };
+        evals += 1;
+        let digest_before = w.digest();
+        let r = w.exec(s);
+        let ok = r.is_ok();
+        let o = observe_t(&w, &probes);
+        let opl = op.kind_label();
+        hist.push(format!("{}:{}:{}", kind.label(), opl, if ok { "ok" } else { "err" }));
+        if ok && matches!(op, Op::TAdd { .. } | Op::TRemove { .. } | Op::Increase(_) | Op::AddStage { .. } | Op::RemoveStage(_)) {
+            nontrivial = true;
+            if sample.is_empty() {
+                sample = format!("{:?} -> num {} limit {} stages {:?}", op, o.num, o.limit, o.stages);
+            }
+        }
+        if !ok {
+            if w.digest() != digest_before {
+                mon.flag(format!("C11:{}:{}:rejected-call-changed-state", kind.label(), opl), format!("{:?} rejected but storage changed", op));
+            }
+            if o.ledger != prev.ledger {
+                mon.flag(format!("C11:{}:{}:rejected-but-charged", kind.label(), opl), format!("{:?} rejected but balances moved", op));
+            }
+        } else {
+            let pay = native_amount(&s.funds);
+            match op {
+                Op::Increase(n) => {
+                    fees_paid += pay;
+                    let want = tiers_fee(*n as u64).saturating_sub(tiers_fee(prev.limit));
+                    if pay != want {
+                        mon.flag(format!("C11:{}:{}:fee-not-exact", kind.label(), opl), format!("limit {} -> {} accepted for a payment of {} (fee {})", prev.limit, n, pay, want));
+                    }
+                }
+                _ => stray += pay,
+            }
+            if let Op::TRemove { stage, ms } = op {
+                let before: BTreeSet<u64> = prev.stages.get(*stage as usize).map(|s| s.1.iter().map(|m| m.0).collect()).unwrap_or_default();
+                let after: BTreeSet<u64> = o.stages.get(*stage as usize).map(|s| s.1.iter().map(|m| m.0).collect()).unwrap_or_default();
+                if let Some(a) = ms.iter().find(|a| !before.contains(a)) {
+                    mon.flag(format!("C11:{}:{}:removed-non-member", kind.label(), opl), format!("remove of {} from stage {} accepted though it was not stored", name(*a), stage));
+                }
+                if let Some(a) = ms.iter().find(|a| after.contains(a)) {
+                    mon.flag(format!("C11:{}:{}:removed-still-stored", kind.label(), opl), format!("{} still stored after its removal", name(*a)));
+                }
+            }
+            if let Op::TAdd { stage, ms } = op {
+                let after: BTreeSet<u64> = o.stages.get(*stage as usize).map(|s| s.1.iter().map(|m| m.0).collect()).unwrap_or_default();
+                if let Some(a) = ms.iter().find(|a| !after.contains(&a.0)) {
+                    mon.flag(format!("C11:{}:{}:added-not-stored", kind.label(), opl), format!("{} not stored after an accepted add", name(a.0)));
+                }
+            }
+        }
+        check_counts(&mut mon, opl, &o);
+        mon.capacity(opl, o.num, o.limit, Some(prev.limit));
+        mon.fees(opl, o.limit, fees_paid, stray, &o.ledger);
+        steps_coq.push(format!("TExec {} {} {} {}", coq_env(s.now, s.sender, &s.funds), coq_top(op), coq_bool(ok), o.coq()));
+        prev = o;
+    }
+    Outcome {
+        coq: format!("C11THist {} {} {} {} {}", kind.coq(), env0, imsg, o0.coq(), coq_list(&steps_coq)),
+        evals,
+        viol: mon.viol,
+        hist,
+        nontrivial,
+        sample,
+    }
+}
+
+fn run_imm(h: &History) -> Outcome {
+    let mut w = World::new(Kind::Immutable);
+    let mut mon = Mon { kind: Kind::Immutable, viol: None };
+    let ms: Vec<u64> = h.init.members.first().map(|l| l.iter().map(|m| m.0).collect()).unwrap_or_default();
+    let r = w.instantiate(&h.init);
+    let hist = vec![format!("whitelist-immutable:instantiate:{}", if r.is_ok() { "ok" } else { "err" })];
+    if r.is_err() {
+        return Outcome {
+            coq: format!("C11ImmFail {} {}", coq_funds(&h.init.funds), coq_ns(&ms)),
+            evals: 1,
+            viol: None,
+            hist,
+            nontrivial: h.init.funds.is_empty(),
+            sample: "instantiate rejected".into(),
+        };
+    }
+    let count = w.query(&json!({"address_count": {}})).ok().and_then(|v| v.as_u64()).unwrap_or(u64::MAX);
+    let addr = w.addr.clone().unwrap();
+    let stored: Vec<u64> = {
+        let st = w.app.contract_storage(&addr);
+        whitelist_immutable::state::WHITELIST
+            .keys(&*st, None, None, Order::Ascending)
+            .map(|k| id_of(&k.unwrap()))
+            .collect()
+    };
+    let mut probes: BTreeSet<u64> = ms.iter().cloned().collect();
+    probes.extend([50u64, 60, 199]);
+    let probes: Vec<(u64, bool)> = probes
+        .into_iter()
+        .map(|a| (a, w.query(&json!({"includes_address": {"address": name(a)}})).ok().and_then(|v| v.as_bool()).unwrap_or(false)))
+        .collect();
+    let nd = stored.iter().collect::<BTreeSet<_>>().len();
+    if count as usize != stored.len() || nd != stored.len() || nd != ms.iter().collect::<BTreeSet<_>>().len() {
+        mon.flag("C11:whitelist-immutable:instantiate:count-mismatch".into(), format!("address_count = {}, stored = {}, distinct given = {}", count, stored.len(), ms.iter().collect::<BTreeSet<_>>().len()));
+    }
+    for (a, b) in &probes {
+        if *b != stored.contains(a) {
+            mon.flag("C11:whitelist-immutable:instantiate:includes-address-wrong".into(), format!("IncludesAddress({}) = {} but stored = {}", name(*a), b, stored.contains(a)));
+        }
+    }
+    let coq = format!(
+        "C11Imm {} {} {} {} {}",
+        coq_funds(&h.init.funds),
+        coq_ns(&ms),
+        count,
+        coq_ns(&stored),
+        coq_list(&probes.iter().map(|(a, b)| format!("({}, {})", a, coq_bool(*b))).collect::<Vec<_>>())
+    );
+    Outcome { coq, evals: 1 + probes.len() as u64, viol: mon.viol, hist, nontrivial: true, sample: format!("{:?} -> count {} stored {:?}", ms, count, stored) }
+}
+
+fn run_history(h: &History) -> Outcome {
+    match h.init.kind {
+        Kind::Plain | Kind::Flex => run_pf(h),
+        Kind::Tiered | Kind::TieredFlex => run_tiered(h),
+        Kind::Immutable => run_imm(h),
+        Kind::Merkle => panic!("C11 does not cover the Merkle whitelist"),
+    }
+}
+
+// ------------------------------------------------------------ generators
+
+fn native(a: u128) -> Vec<(String, u128)> {
+    vec![(NATIVE.to_string(), a)]
+}
+fn fee(limit: u32) -> u128 {
+    tiers_fee(limit as u64)
+}
+fn ones(ids: &[u64]) -> Vec<(u64, u32)> {
+    ids.iter().map(|a| (*a, 1)).collect()
+}
+fn stage(i: u64) -> StageSpec {
+    StageSpec { start: T0 + (100 + 100 * i) * S, end: T0 + (200 + 100 * i) * S, pal: 2, denom: 0 }
+}
+
+fn pf_init(kind: Kind, members: Vec<(u64, u32)>, limit: u32) -> Init {
+    Init {
+        kind,
+        now: T0,
+        sender: 60,
+        funds: native(fee(limit)),
+        members: vec![members],
+        start: T0 + 100 * S,
+        end: T0 + 200 * S,
+        pal: 2,
+        limit,
+        whale: None,
+        admins: vec![60, 61],
+        mutable: true,
+        root_ok: true,
+        stages: vec![],
+    }
+}
+fn t_init(kind: Kind, members: Vec<Vec<(u64, u32)>>, nstages: u64, limit: u32) -> Init {
+    Init {
+        kind,
+        now: T0,
+        sender: 60,
+        funds: native(fee(limit)),
+        members,
+        start: 0,
+        end: 0,
+        pal: 2,
+        limit,
+        whale: None,
+        admins: vec![60, 61],
+        mutable: true,
+        root_ok: true,
+        stages: (0..nstages).map(stage).collect(),
+    }
+}
+fn imm_init(members: Vec<u64>, funds: Vec<(String, u128)>) -> Init {
+    Init {
+        kind: Kind::Immutable,
+        now: T0,
+        sender: 60,
+        funds,
+        members: vec![ones(&members)],
+        start: 0,
+        end: 0,
+        pal: 1,
+        limit: 0,
+        whale: None,
+        admins: vec![],
+        mutable: false,
+        root_ok: true,
+        stages: vec![],
+    }
+}
+fn call(now: u64, sender: u64, op: Op) -> Step {
+    Step { now, sender, funds: vec![], op: Some(op) }
+}
+fn pay(now: u64, sender: u64, op: Op, funds: Vec<(String, u128)>) -> Step {
+    Step { now, sender, funds, op: Some(op) }
+}
+/// add_members in the vocabulary of the kind
+fn add(kind: Kind, stage: u32, ms: Vec<(u64, u32)>) -> Op {
+    if kind.is_tiered() {
+        Op::TAdd { stage, ms }
+    } else {
+        Op::Add(ms)
+    }
+}
+fn remove(kind: Kind, stage: u32, ms: Vec<u64>) -> Op {
+    if kind.is_tiered() {
+        Op::TRemove { stage, ms }
+    } else {
+        Op::Remove(ms)
+    }
+}
+fn init_for(kind: Kind, members: Vec<(u64, u32)>, limit: u32) -> Init {
+    if kind.is_tiered() {
+        t_init(kind, vec![members], 1, limit)
+    } else {
+        pf_init(kind, members, limit)
+    }
+}
+
+const LIST_KINDS: [Kind; 4] = [Kind::Plain, Kind::Flex, Kind::Tiered, Kind::TieredFlex];
+
+fn corpus() -> Vec<History> {
+    let mut v = vec![];
+    // --- one replay per repaired defect (known_findings.json, status fixed)
+    // D5a whitelist-flex instantiate [aaa x2, bbb]
+    v.push(History { init: pf_init(Kind::Flex, vec![(100, 1), (100, 2), (101, 1)], 10), steps: vec![call(T0 + 1, 60, Op::Add(vec![(102, 1)]))] });
+    // D5b tiered-whitelist-flex instantiate [aaa, aaa]; add_stage [bbb, bbb, ccc]
+    v.push(History {
+        init: t_init(Kind::TieredFlex, vec![vec![(100, 1), (100, 3)]], 1, 10),
+        steps: vec![call(T0 + 1, 60, Op::AddStage { stage: stage(1), ms: vec![(101, 1), (101, 2), (102, 1)] })],
+    });
+    // D5c tiered(-flex): one stage, member lists [[aaa],[bbb,ccc]]
+    for k in [Kind::Tiered, Kind::TieredFlex] {
+        v.push(History { init: t_init(k, vec![ones(&[100]), ones(&[101, 102])], 1, 10), steps: vec![call(T0 + 1, 60, add(k, 0, ones(&[103])))] });
+        // fewer lists than stages
+        v.push(History { init: t_init(k, vec![ones(&[100])], 2, 10), steps: vec![] });
+        // duplicates inside and overlap across stages; empty list
+        v.push(History {
+            init: t_init(k, vec![ones(&[100, 101, 100]), ones(&[101, 102]), vec![]], 3, 10),
+            steps: vec![
+                call(T0 + 1, 60, add(k, 1, ones(&[100, 100, 103]))),
+                call(T0 + 2, 60, remove(k, 1, vec![101])),
+                call(T0 + 3, 60, Op::RemoveStage(1)),
+                call(T0 + 4, 60, Op::AddStage { stage: stage(1), ms: ones(&[100, 104, 104]) }),
+                call(T0 + 5, 60, Op::RemoveStage(0)),
+                call(T0 + 6, 60, Op::AddStage { stage: stage(0), ms: ones(&[105]) }),
+            ],
+        });
+    }
+    for k in LIST_KINDS {
+        // duplicate, overlapping and empty member lists at instantiate
+        v.push(History { init: init_for(k, vec![], 5), steps: vec![call(T0 + 1, 60, add(k, 0, vec![]))] });
+        v.push(History { init: init_for(k, ones(&[101, 100, 101, 100, 100]), 5), steps: vec![] });
+        // existing member: skipped (plain, tiered) or rejected (flex); never counted twice
+        v.push(History {
+            init: init_for(k, ones(&[100, 101]), 5),
+            steps: vec![
+                call(T0 + 1, 60, add(k, 0, ones(&[101]))),
+                call(T0 + 2, 60, add(k, 0, ones(&[102, 101]))),
+                call(T0 + 3, 60, add(k, 0, ones(&[103, 103]))),
+                call(T0 + 4, 60, add(k, 0, vec![(104, 3), (104, 7)])),
+            ],
+        });
+        // the limit test comes before the already-a-member skip
+        v.push(History {
+            init: init_for(k, ones(&[100, 101]), 2),
+            steps: vec![call(T0 + 1, 60, add(k, 0, ones(&[100]))), call(T0 + 2, 60, add(k, 0, ones(&[102])))],
+        });
+        // removal needs existing members; a repeated address in one removal
+        v.push(History {
+            init: init_for(k, ones(&[100, 101, 102]), 5),
+            steps: vec![
+                call(T0 + 1, 60, remove(k, 0, vec![103])),
+                call(T0 + 2, 60, remove(k, 0, vec![100, 100])),
+                call(T0 + 3, 60, remove(k, 0, vec![100, 103])),
+                call(T0 + 4, 60, remove(k, 0, vec![100])),
+                call(T0 + 5, 60, remove(k, 0, vec![100])),
+                call(T0 + 6, 60, remove(k, 0, vec![])),
+                call(T0 + 7, 60, remove(k, 0, vec![101, 102])),
+                call(T0 + 8, 60, remove(k, 0, vec![101])),
+            ],
+        });
+        // fee chain over the 1000-member tiers
+        v.push(History {
+            init: init_for(k, ones(&[100]), 1000),
+            steps: vec![
+                pay(T0 + 1, 62, Op::Increase(1001), native(STARS_100)),
+                pay(T0 + 2, 62, Op::Increase(2000), vec![]),
+                pay(T0 + 3, 60, Op::Increase(2001), native(STARS_100)),
+                pay(T0 + 4, 61, Op::Increase(k.max_members()), native(fee(k.max_members()) - fee(2001))),
+                pay(T0 + 5, 61, Op::Increase(k.max_members() + 1), native(STARS_100)),
+            ],
+        });
+        // funds sent along with a call that has no fee stay in the contract
+        v.push(History { init: init_for(k, ones(&[100]), 5), steps: vec![pay(T0 + 1, 60, add(k, 0, ones(&[101])), native(7))] });
+        // malformed addresses
+        v.push(History { init: init_for(k, ones(&[100, 51]), 5), steps: vec![] });
+        v.push(History {
+            init: init_for(k, ones(&[100]), 5),
+            steps: vec![call(T0 + 1, 60, add(k, 0, ones(&[50]))), call(T0 + 2, 60, add(k, 0, ones(&[101, 52]))), call(T0 + 3, 60, remove(k, 0, vec![51]))],
+        });
+    }
+    // whale cap (flex kinds)
+    for k in [Kind::Flex, Kind::TieredFlex] {
+        for (whale, cnt) in [(10u32, 1u32), (11, 11), (11, 12), (12, 1)] {
+            let mut i = init_for(k, vec![(100, cnt)], 10);
+            i.whale = Some(whale);
+            v.push(History { init: i, steps: vec![call(T0 + 1, 60, add(k, 0, vec![(101, 99)]))] });
+        }
+    }
+    // whitelist-immutable
+    v.push(History { init: imm_init(vec![100, 101, 100, 102, 101], vec![]), steps: vec![] });
+    v.push(History { init: imm_init(vec![], vec![]), steps: vec![] });
+    v.push(History { init: imm_init(vec![100], native(1)), steps: vec![] });
+    v.push(History { init: imm_init(vec![52, 50, 50, 60, 100], vec![]), steps: vec![] });
+    v
+}
+
+fn probes() -> Vec<History> {
+    let mut v = vec![];
+    for k in LIST_KINDS {
+        let max = k.max_members();
+        // instantiate: limit bounds and the fee at and around every tier
+        let mut limits: Vec<u32> = vec![0, 1, 2, 999, 1000, 1001, 1999, 2000, 2001, 4999, 5000, 5001, max - 1, max, max + 1];
+        limits.sort_unstable();
+        limits.dedup();
+        for l in limits {
+            let exact = fee(l);
+            for f in [exact, exact.saturating_sub(1), exact + 1] {
+                let mut i = init_for(k, ones(&[100]), l);
+                i.funds = if f == 0 { vec![] } else { native(f) };
+                v.push(History { init: i, steps: vec![] });
+            }
+        }
+        for funds in [vec![], vec![("uother".to_string(), fee(1000))], vec![(NATIVE.to_string(), fee(1000)), ("uother".to_string(), 1)], vec![(NATIVE.to_string(), fee(1000) / 2), (NATIVE.to_string(), fee(1000) / 2)]] {
+            let mut i = init_for(k, ones(&[100]), 1000);
+            i.funds = funds;
+            v.push(History { init: i, steps: vec![] });
+        }
+        // instantiate: number of members against the limit
+        for n in [2u64, 3, 4] {
+            let ms: Vec<u64> = (100..100 + n).collect();
+            v.push(History { init: init_for(k, ones(&ms), 3), steps: vec![] });
+            // with one duplicate on top (flex kinds count the raw list for this test)
+            let mut d = ms.clone();
+            d.push(100);
+            v.push(History { init: init_for(k, ones(&d), 3), steps: vec![] });
+        }
+        // add_members: count against the limit
+        v.push(History {
+            init: init_for(k, ones(&[100]), 3),
+            steps: vec![
+                call(T0 + 1, 60, add(k, 0, ones(&[101]))),
+                call(T0 + 2, 60, add(k, 0, ones(&[102, 103]))),
+                call(T0 + 3, 60, add(k, 0, ones(&[100]))),
+                call(T0 + 4, 60, add(k, 0, ones(&[102]))),
+                call(T0 + 5, 60, add(k, 0, ones(&[103]))),
+                call(T0 + 6, 60, add(k, 0, ones(&[100]))),
+                call(T0 + 7, 60, remove(k, 0, vec![101])),
+                call(T0 + 8, 60, add(k, 0, ones(&[100, 104]))),
+                call(T0 + 9, 60, add(k, 0, ones(&[104]))),
+            ],
+        });
+        // increase_member_limit: new value against the old one and the maximum; fee at tiers
+        for (from, to) in [(5u32, 4u32), (5, 5), (5, 6), (999, 1000), (1000, 1001), (1001, 1002), (1, 2001), (1999, 2000), (2000, 2001), (1000, max), (1000, max + 1), (max - 1, max), (max, max + 1)] {
+            let exact = fee(to).saturating_sub(fee(from));
+            for f in [exact, exact + 1, exact.saturating_sub(1), exact + STARS_100] {
+                v.push(History {
+                    init: init_for(k, ones(&[100]), from),
+                    steps: vec![pay(T0 + 1, 62, Op::Increase(to), if f == 0 { vec![] } else { native(f) })],
+                });
+            }
+            v.push(History { init: init_for(k, ones(&[100]), from), steps: vec![pay(T0 + 1, 62, Op::Increase(to), vec![("uother".to_string(), exact.max(1))])] });
+        }
+        // sender roles
+        for sender in [60u64, 61, 62] {
+            v.push(History {
+                init: init_for(k, ones(&[100, 101]), 5),
+                steps: vec![
+                    call(T0 + 1, sender, add(k, 0, ones(&[102]))),
+                    call(T0 + 2, sender, remove(k, 0, vec![100])),
+                    pay(T0 + 3, sender, Op::Increase(6), vec![]),
+                ],
+            });
+        }
+        // removal against the start instant (the count must stay right on both sides)
+        for now in [T0 + 100 * S - 1, T0 + 100 * S, T0 + 100 * S + 1] {
+            v.push(History { init: init_for(k, ones(&[100, 101]), 5), steps: vec![call(now, 60, remove(k, 0, vec![100])), call(now, 60, add(k, 0, ones(&[102])))] });
+        }
+    }
+    // tiered: stage bookkeeping guards
+    for k in [Kind::Tiered, Kind::TieredFlex] {
+        for n in [1u64, 2, 3, 4] {
+            let lists: Vec<Vec<(u64, u32)>> = (0..n).map(|i| ones(&[100 + i, 110])).collect();
+            v.push(History {
+                init: t_init(k, lists, n, 10),
+                steps: vec![
+                    call(T0 + 1, 60, Op::AddStage { stage: stage(n), ms: ones(&[120, 110]) }),
+                    call(T0 + 2, 60, add(k, n as u32, ones(&[121]))),
+                    call(T0 + 3, 60, add(k, n as u32 + 1, ones(&[122]))),
+                    call(T0 + 4, 60, remove(k, n as u32 + 1, vec![110])),
+                    call(T0 + 5, 60, Op::RemoveStage(n as u32 + 1)),
+                    call(T0 + 6, 60, Op::RemoveStage(n as u32)),
+                    call(T0 + 7, 60, Op::RemoveStage(1)),
+                ],
+            });
+        }
+        // add_stage against the member limit
+        for extra in [1u64, 2, 3] {
+            let ms: Vec<u64> = (120..120 + extra).collect();
+            v.push(History { init: t_init(k, vec![ones(&[100, 101])], 1, 4), steps: vec![call(T0 + 1, 60, Op::AddStage { stage: stage(1), ms: ones(&ms) })] });
+        }
+        // more or fewer member lists than stages
+        for (lists, stages) in [(0u64, 1u64), (1, 2), (2, 2), (3, 2), (3, 1)] {
+            let l: Vec<Vec<(u64, u32)>> = (0..lists).map(|i| ones(&[100 + i, 100 + i, 105])).collect();
+            v.push(History { init: t_init(k, l, stages, 10), steps: vec![] });
+        }
+        // remove_stage against the stage's own start; stage windows edited first
+        for now in [T0 + 200 * S - 1, T0 + 200 * S, T0 + 200 * S + 1] {
+            v.push(History {
+                init: t_init(k, vec![ones(&[100]), ones(&[101, 102]), ones(&[103])], 3, 10),
+                steps: vec![call(now, 60, remove(k, 1, vec![101])), call(now, 60, Op::RemoveStage(1)), call(now, 60, remove(k, 2, vec![103])), call(now, 60, Op::RemoveStage(2))],
+            });
+        }
+        v.push(History {
+            init: t_init(k, vec![ones(&[100]), ones(&[101, 102])], 2, 10),
+            steps: vec![
+                call(T0 + 1, 60, Op::UpdStage { stage: 1, start: Some(T0 + 250 * S), end: None, pal: Some(3) }),
+                call(T0 + 2, 60, Op::UpdStage { stage: 1, start: Some(T0 + 199 * S), end: None, pal: None }),
+                call(T0 + 3, 60, Op::UpdStage { stage: 2, start: None, end: None, pal: None }),
+                call(T0 + 220 * S, 60, remove(k, 1, vec![101])),
+                call(T0 + 250 * S, 60, remove(k, 1, vec![102])),
+            ],
+        });
+    }
+    // immutable: list shapes
+    for n in 0..6u64 {
+        let mut ms: Vec<u64> = (0..n).map(|i| 100 + (i * 7) % 5).collect();
+        ms.reverse();
+        v.push(History { init: imm_init(ms, vec![]), steps: vec![] });
+    }
+    v
+}
+
+fn random_members(rng: &mut Rng, max: u64) -> Vec<(u64, u32)> {
+    let n = rng.below(max + 1);
+    (0..n).map(|_| (if rng.chance(1, 40) { 50 + rng.below(3) } else { rng.range(100, 109) }, rng.range(1, 4) as u32)).collect()
+}
+
+fn random_history(kind: Kind, rng: &mut Rng, lits: &[u32]) -> History {
+    let tier_limit = rng.chance(1, 3);
+    let limit: u32 = if tier_limit { *rng.pick(&[998u32, 999, 1000, 1001, 1999, 2000]) } else { rng.range(2, 8) as u32 };
+    let nstages = if kind.is_tiered() { rng.range(1, 3) } else { 0 };
+    let mut init = if kind.is_tiered() {
+        let lists = (0..nstages + rng.below(2)).map(|_| random_members(rng, 3)).collect();
+        t_init(kind, lists, nstages, limit)
+    } else {
+        pf_init(kind, random_members(rng, 4), limit)
+    };
+    if kind.is_flex() && rng.chance(1, 4) {
+        init.whale = Some(limit + rng.range(1, 3) as u32);
+    }
+    let mut steps = vec![];
+    let mut now = T0;
+    let mut cur_limit = limit;
+    let mut cur_stages = nstages;
+    let n = rng.range(10, 30);
+    for _ in 0..n {
+        now += if rng.chance(1, 25) { 100 * S } else { rng.below(3) };
+        let sender = if rng.chance(1, 12) { 62 } else { *rng.pick(&[60u64, 61]) };
+        let beyond = if rng.chance(1, 10) { 1 } else { 0 };
+        let st = if cur_stages == 0 { 0 } else { rng.below(cur_stages + beyond) as u32 };
+        let (op, funds) = match rng.below(12) {
+            0..=3 => (add(kind, st, random_members(rng, 3)), vec![]),
+            4..=5 => (remove(kind, st, random_members(rng, 2).into_iter().map(|m| m.0).collect()), vec![]),
+            6..=7 => {
+                let to = match rng.below(6) {
+                    0 => cur_limit + 1,
+                    1 => ((cur_limit / 1000) + 1) * 1000,
+                    2 => ((cur_limit / 1000) + 1) * 1000 + 1,
+                    3 => *rng.pick(lits),
+                    4 => cur_limit,
+                    _ => cur_limit + rng.range(1, 1200) as u32,
+                };
+                let exact = fee(to).saturating_sub(fee(cur_limit));
+                let f = match rng.below(8) {
+                    0 => exact + 1,
+                    1 => exact.saturating_sub(1),
+                    _ => exact,
+                };
+                if to > cur_limit && to <= kind.max_members() && f == exact {
+                    cur_limit = to;
+                }
+                (Op::Increase(to), if f == 0 { vec![] } else { native(f) })
+            }
+            8 if kind.is_tiered() => {
+                let s = stage(cur_stages);
+                if cur_stages < 3 && sender != 62 && now < T0 + 100 * S {
+                    cur_stages += 1;
+                }
+                (Op::AddStage { stage: s, ms: random_members(rng, 3) }, vec![])
+            }
+            9 if kind.is_tiered() => {
+                if (st as u64) < cur_stages && sender != 62 && now < stage(st as u64).start {
+                    cur_stages = st as u64;
+                }
+                (Op::RemoveStage(st), vec![])
+            }
+            10 if rng.chance(1, 3) => (Op::UpdAdmins(vec![60, 61, 62]), vec![]),
+            _ => (add(kind, st, random_members(rng, 2)), vec![]),
+        };
+        steps.push(Step { now, sender, funds, op: Some(op) });
+    }
+    History { init, steps }
+}
+
+fn gen_histories(a: &Args) -> Vec<History> {
+    let mut rng = Rng::new(a.seed);
+    let mut lits: Vec<u32> = vec![1, 1000, 5000, 30000];
+    for l in harvest_literals(&[
+        "contracts/whitelists/whitelist/src/contract.rs",
+        "contracts/whitelists/whitelist-flex/src/contract.rs",
+        "contracts/whitelists/tiered-whitelist/src/contract.rs",
+        "contracts/whitelists/tiered-whitelist-flex/src/contract.rs",
+        "contracts/whitelists/whitelist-immutable/src/contract.rs",
+    ]) {
+        for d in [l.saturating_sub(1), l, l.saturating_add(1)] {
+            if d <= 40_000 {
+                lits.push(d as u32);
+            }
+        }
+    }
+    let mut v = corpus();
+    v.extend(probes());
+    let nrand = if a.thorough() { 600 } else { 40 };
+    let mut rnd = vec![];
+    for _ in 0..nrand {
+        for k in LIST_KINDS {
+            rnd.push(random_history(k, &mut rng, &lits));
+        }
+    }
+    for _ in 0..(nrand / 2) {
+        let ms: Vec<u64> = random_members(&mut rng, 6).into_iter().map(|m| m.0).collect();
+        v.push(History { init: imm_init(ms, if rng.chance(1, 10) { native(5) } else { vec![] }), steps: vec![] });
+    }
+    // spread the long random histories evenly over the case-file shards
+    let stride = (v.len() / rnd.len().max(1)).max(1);
+    let mut out = Vec::with_capacity(v.len() + rnd.len());
+    let mut it = rnd.into_iter();
+    for (i, h) in v.into_iter().enumerate() {
+        out.push(h);
+        if i % stride == stride - 1 {
+            out.extend(it.next());
+        }
+    }
+    out.extend(it);
+    out
+}
+
+fn shrink(h: &History, key: &str) -> History {
+    let mut cur = h.clone();
+    loop {
+        let mut progressed = false;
+        let mut i = 0;
+        while i < cur.steps.len() {
+            let mut cand = cur.clone();
+            cand.steps.remove(i);
+            match run_history(&cand).viol {
+                Some((k, _)) if k == key => {
+                    cur = cand;
+                    progressed = true;
+                }
+                _ => i += 1,
+            }
+        }
+        if !progressed {
+            return cur;
+        }
+    }
+}
+
+pub fn run(a: &Args) {
+    let out = OutDir::new(&a.out);
+    let mut rep = Report { property: "C11".into(), tier: a.tier.clone(), seed: a.seed, ..Default::default() };
+    let hs: Vec<History> = if let Some(p) = &a.replay {
+        #[derive(Deserialize)]
+        struct ReplayFile {
+            case: History,
+        }
+        let txt = std::fs::read_to_string(p).expect("replay file");
+        let rf: ReplayFile = serde_json::from_str(&txt).expect("replay json");
+        vec![rf.case]
+    } else {
+        gen_histories(a)
+    };
+    let mut coq_cases = Vec::with_capacity(hs.len());
+    let mut distinct_h = BTreeSet::new();
+    let mut seen_keys: BTreeMap<String, u32> = BTreeMap::new();
+    let mut nviol = 0;
+    for (i, h) in hs.iter().enumerate() {
+        let o = run_history(h);
+        rep.evaluations += o.evals;
+        for k in &o.hist {
+            rep.bump(k);
+        }
+        if o.nontrivial {
+            distinct_h.insert(h.clone());
+        }
+        if let Some((key, what)) = &o.viol {
+            nviol += 1;
+            let n = seen_keys.entry(key.clone()).or_insert(0);
+            *n += 1;
+            if *n <= 2 && rep.violations.len() < 20 {
+                let small = shrink(h, key);
+                let what2 = run_history(&small).viol.map(|v| v.1).unwrap_or(what.clone());
+                let body = format!(
+                    "{{\n \"property\": \"C11\",\n \"key\": {},\n \"case\": {},\n \"violation\": {}\n}}\n",
+                    serde_json::to_string(key).unwrap(),
+                    serde_json::to_string(&small).unwrap(),
+                    serde_json::to_string(&what2).unwrap()
+                );
+                let path = out.write_replay(&format!("C11-{}.json", rep.violations.len() + 1), &body);
+                rep.violations.push(Violation { key: key.clone(), what: format!("{}: {}", h.init.kind.label(), what2), replay: path });
+            }
+        }
+        if rep.samples.len() < 3 && (i % 131 == 7 || a.replay.is_some()) {
+            rep.samples.push(json!({"history": format!("{:?} + {} steps", h.init.kind, h.steps.len()), "impl_output": o.sample}));
+        }
+        coq_cases.push(o.coq);
+    }
+    rep.distinct_nontrivial = distinct_h.len() as u64;
+    rep.rule = "histories on the real whitelist, whitelist-flex, tiered-whitelist, tiered-whitelist-flex and whitelist-immutable contracts: corpus (one replay per repaired defect), guard-boundary probes per kind (limits and fees at 999/1000/1001/.../MAX/MAX+1, count vs limit, sender roles, stage bookkeeping), random histories, malformed funds and addresses; evaluations = instantiate + calls. Non-trivial = distinct history with at least one accepted add / remove / stage / increase call (or an accepted immutable instantiate).".into();
+    out.write_cases("C11", "From LP Require Import Wl WlTiered C11Corr.", "c11_case", "c11_check", &coq_cases, 6, &mut rep);
+    out.finish(&rep);
+    println!("C11 harness: {} histories, {} steps, {} monitor violations", hs.len(), rep.evaluations, nviol);
 }
